@@ -88,7 +88,7 @@ def main():
         print("patch does not apply to /repo:", o); return 2
     results = {}
     try:
-        with cf.ThreadPoolExecutor(max_workers=3) as ex:
+        with cf.ThreadPoolExecutor(max_workers=6) as ex:
             for pid, rc, lines, wall in ex.map(run_check, pids):
                 results[pid] = {"exit": rc, "wall_s": wall, "lines": lines}
                 print(pid, "exit", rc, wall, "s", "|", " ; ".join(l[:160] for l in lines[:3]))
